@@ -259,3 +259,129 @@ Definition obs_cool (ncols : nat) (c : @cool (list Z)) :=
 Definition obs_create (ncols : nat) (r : cerr + @cool (list Z)) :=
   match r with inl e => inl e | inr c => inr (obs_cool ncols c) end.
 Definition rows_of_px (l : list pixel) : list (key * list Z) := map (fun p => (fst p, [snd p])) l.
+
+(** * C13: create() as a step machine over a small file model.
+      A file is an association list  path -> group; a path is the list of its components (ids), [] is the
+      root group; an empty list is a file that does not exist.  Only collection-level groups are tracked
+      (file root, user groups, destinations); the four reserved children chroms/bins/pixels/indexes of a
+      destination and every dataset/attribute other than "format" are summarised by the content id. *)
+Definition path := list Z.
+Record group := { g_format : bool; g_content : Z }.
+Definition file := list (path * group).
+
+Fixpoint path_eqb (a b : path) : bool :=
+  match a, b with
+  | [], [] => true
+  | x :: a', y :: b' => (x =? y) && path_eqb a' b'
+  | _, _ => false
+  end.
+(** [is_prefix d p]: p is d or lies below d *)
+Fixpoint is_prefix (d p : path) : bool :=
+  match d, p with
+  | [], _ => true
+  | x :: d', y :: p' => (x =? y) && is_prefix d' p'
+  | _ :: _, [] => false
+  end.
+Fixpoint lookup (f : file) (p : path) : option group :=
+  match f with
+  | [] => None
+  | (q, g) :: t => if path_eqb q p then Some g else lookup t p
+  end.
+Definition remove_path (f : file) (p : path) : file := filter (fun e => negb (path_eqb (fst e) p)) f.
+Definition remove_under (f : file) (d : path) : file := filter (fun e => negb (is_prefix d (fst e))) f.
+Definition set_group (f : file) (p : path) (g : group) : file := (p, g) :: remove_path f p.
+
+Definition fresh : group := {| g_format := false; g_content := 0 |}.
+
+(** fileops._is_cooler / is_cooler / list_coolers: recognition by the format attribute alone *)
+Definition is_cooler (f : file) (p : path) : bool :=
+  match lookup f p with Some g => g_format g | None => false end.
+Definition list_coolers (f : file) : list path := filter (is_cooler f) (map fst f).
+
+(** h5py create_group(path) creates the missing intermediate groups *)
+Fixpoint proper_prefixes (p : path) : list path :=
+  match p with
+  | [] => []
+  | x :: t => [] :: map (cons x) (proper_prefixes t)
+  end.
+Definition ensure_group (f : file) (p : path) : file :=
+  match lookup f p with Some _ => f | None => set_group f p fresh end.
+
+Inductive mode := ModeW | ModeA.
+
+Inductive step :=
+| SOpen (m : mode)          (* h5py.File(file_path, mode) *)
+| SMakeTarget               (* root: delete the four reserved children; else create_group / del + create_group *)
+| SWrite (tag : Z)          (* write chroms (1) / bins (2) / prepare pixels (3) / indexes (5) *)
+| SChunk (ok : bool)        (* one iteration of write_pixels; ok = false: validator, iterator or range check raises *)
+| SInfo.                    (* write_info: the only step that sets "format" *)
+
+Definition touch (f : file) (p : path) (tag : Z) : file :=
+  match lookup f p with
+  | Some g => set_group f p {| g_format := g_format g; g_content := g_content g * 31 + tag |}
+  | None => f
+  end.
+
+(** None = the step raises (the file keeps the state reached so far) *)
+Definition exec_step (dest : path) (s : step) (f : file) : option file :=
+  match s with
+  | SOpen ModeW => Some [([], fresh)]
+  | SOpen ModeA => Some (ensure_group f [])
+  | SMakeTarget =>
+      match dest with
+      | [] => Some (touch f [] 0)
+      | _ => Some (set_group (fold_left ensure_group (proper_prefixes dest) (remove_under f dest)) dest fresh)
+      end
+  | SWrite tag => Some (touch f dest tag)
+  | SChunk true => Some (touch f dest 4)
+  | SChunk false => None
+  | SInfo =>
+      match lookup f dest with
+      | Some g => Some (set_group f dest {| g_format := true; g_content := g_content g * 31 + 6 |})
+      | None => None
+      end
+  end.
+
+(** run the steps in order; the boolean tells whether all of them completed *)
+Fixpoint run (dest : path) (steps : list step) (f : file) : file * bool :=
+  match steps with
+  | [] => (f, true)
+  | s :: t => match exec_step dest s f with
+              | None => (f, false)
+              | Some f' => run dest t f'
+              end
+  end.
+
+(** the step list of create(): [oks] tells for each item the iterator produces whether that iteration succeeds
+    (false: the validator rejects the chunk, the iterator raises instead of yielding it, or a value does not fit) *)
+Definition create_steps (m : mode) (oks : list bool) : list step :=
+  [SOpen m; SMakeTarget; SWrite 1; SWrite 2; SWrite 3] ++ map SChunk oks ++ [SWrite 5; SInfo].
+
+(** an input stream: Some chunk, or None = the iterator raises at that point *)
+Definition item_ok {V} (validate : list (key * V) -> cerr + list (key * V)) (fits : key * V -> bool)
+           (it : option (list (key * V))) : bool :=
+  match it with
+  | None => false
+  | Some c => match validate c with inl _ => false | inr c' => forallb fits c' end
+  end.
+
+Definition create_machine {V} (m : mode) (dest : path) (validate : list (key * V) -> cerr + list (key * V))
+           (fits : key * V -> bool) (items : list (option (list (key * V)))) (f : file) : file * bool :=
+  run dest (create_steps m (map (item_ok validate fits) items)) f.
+
+(** create_from_unordered: the sort pass validates and writes every chunk into a temporary file next to the
+    destination; only when all of them succeeded is the destination opened, by a create() fed from the merger *)
+Definition create_unordered_machine {V} (m : mode) (dest : path) (validate : list (key * V) -> cerr + list (key * V))
+           (fits : key * V -> bool) (items : list (option (list (key * V)))) (f : file) : file * bool :=
+  if forallb (item_ok validate fits) items then run dest (create_steps m [true]) f else (f, false).
+
+(** observation of a path for the correspondence run: (exists, format, record unchanged w.r.t. the file before) *)
+Definition obs_path (before after : file) (p : path) : bool * bool * bool :=
+  match lookup after p with
+  | None => (false, false, match lookup before p with None => true | Some _ => false end)
+  | Some g => (true, g_format g,
+               match lookup before p with
+               | Some g0 => Bool.eqb (g_format g0) (g_format g) && (g_content g0 =? g_content g)
+               | None => false
+               end)
+  end.
